@@ -2,6 +2,125 @@
 
 COMMON_MODEL = "Go runtime, reflect, sync and the standard library are not modelled"
 
+import os, re, json, glob, collections
+
+
+def c20_pre_build(ROOT, REPO, BUILD, sh, GOENV, tier, seed):
+    """Regenerate the synchronisation skeleton from /repo's current source and compile it."""
+    info = {"coverage": {}}
+    tdir = os.path.join(ROOT, "translator")
+    rc, out = sh(["go", "build", "-o", os.path.join(BUILD, "translate"), "."], cwd=tdir, timeout=600, env=GOENV)
+    if rc != 0:
+        return False, dict(kind="tie", what="the translator does not build", detail=out[-3000:])
+    gen = os.path.join(ROOT, "coq", "theories", "Lockset", "generated")
+    os.makedirs(gen, exist_ok=True)
+    rc, out = sh([os.path.join(BUILD, "translate"), REPO, os.path.join(gen, "Skeleton.v")], cwd=REPO, timeout=900, env=GOENV)
+    if rc != 0:
+        return False, dict(kind="tie", what="the translator cannot read the current source of /repo", detail=out[-3000:])
+    m = re.search(r"skeleton: (\d+) units, (\d+) paths, (\d+) events, (\d+) guarded fields", out)
+    if m:
+        info["coverage"].update(skeleton_units=int(m.group(1)), skeleton_paths=int(m.group(2)), skeleton_events=int(m.group(3)), guarded_fields=int(m.group(4)),
+                                evaluations=int(m.group(2)), distinct_nontrivial=int(m.group(1)),
+                                rule="evaluations = control-flow paths of the regenerated skeleton checked by lockset_ok / order_ok; distinct_nontrivial = function units with at least one lock operation or guarded access; race workloads: see race_workload_ops",
+                                samples=[{"exemptions": ["store.segment.Scan/segment.indexes", "store.stream.Next,Decode/stream.doc"], "allowed_self_edge": "process.Process.mu"}])
+    coq = os.path.join(ROOT, "coq")
+    for f in ("theories/Lockset/Sync.v", "theories/Lockset/Soundness.v", "theories/Lockset/generated/Skeleton.v"):
+        rc, out = sh(["coqc", "-Q", "theories", "Uf", f], cwd=coq, timeout=1200)
+        if rc != 0:
+            return False, dict(kind="proof", what="coqc failed on " + f, detail=out[-3000:])
+    return True, info
+
+
+def c20_diagnose(ROOT):
+    """Evaluate the lockset and lock-order checks on the skeleton's JSON twin, to name the sites that break them."""
+    try:
+        m = json.load(open(os.path.join(ROOT, "coq", "theories", "Lockset", "generated", "Skeleton.json")))
+    except OSError:
+        return []
+    written = set(m["guarded_fields"])
+    exempt = {("store.segment.Scan", "store.segment.indexes"), ("store.stream.Next", "store.stream.doc"), ("store.stream.Decode", "store.stream.doc")}
+    out = []
+    for u in m["dump"]:
+        for p in (u["paths"] or []):
+            held = []
+            for e in (p or []):
+                if e["k"] == "acq":
+                    if any(b == e["b"] and n == e["n"] for (b, n, mo) in held):
+                        out.append("%s takes %s on %s while holding it (%s)" % (u["unit"], e["n"], e["b"], e["w"]))
+                    held.append((e["b"], e["n"], e["m"]))
+                elif e["k"] == "rel":
+                    t = (e["b"], e["n"], e["m"])
+                    if t in held:
+                        held.remove(t)
+                    else:
+                        out.append("%s releases %s on %s without holding it (%s)" % (u["unit"], e["n"], e["b"], e["w"]))
+                elif e["n"] in written and (u["unit"], e["n"]) not in exempt:
+                    cls = e["n"].rsplit(".", 1)[0]
+                    if not any(b == e["b"] and n.startswith(cls + ".") and (mo == "W" or e["m"] == "r") for (b, n, mo) in held):
+                        out.append("%s %s %s of %s at %s without %s's lock held%s" % (
+                            u["unit"], "writes" if e["m"] == "w" else "reads", e["n"], e["b"], e["w"], e["b"],
+                            " exclusively" if e["m"] == "w" else ""))
+            if held:
+                out.append("%s can return still holding %s" % (u["unit"], held))
+    if m.get("lock_order_cycle"):
+        out.append("lock order: " + m["lock_order_cycle"] + ": " + "; ".join("%s -> %s (%s)" % (e["from"], e["to"], e["at"][0]) for e in m["lock_order_edges"] if e["from"] != e["to"]))
+    seen, res = set(), []
+    for x in out:
+        if x not in seen:
+            seen.add(x); res.append(x)
+    return res
+
+
+def c20_pre(ROOT, REPO, BUILD, sh, GOENV, tier, seed):
+    """Race-detector workloads on the real objects (the search for a failing schedule, and the part the lock protocol does not cover)."""
+    info = {"coverage": {}}
+    h = os.path.join(ROOT, "harness")
+    env = dict(GOENV, CGO_ENABLED="1")
+    rc, out = sh(["go", "build", "-race", "-tags", "verif", "-o", os.path.join(BUILD, "vr"), "./cmd/vr"], cwd=h, timeout=1200, env=env)
+    if rc != 0:
+        return False, dict(kind="tie", what="the race workloads do not build against /repo", detail=out[-3000:])
+    rdir = os.path.join(BUILD, "race")
+    os.makedirs(rdir, exist_ok=True)
+    for f in glob.glob(os.path.join(rdir, "r.*")):
+        os.remove(f)
+    seeds = [seed, seed + 1] if tier == "quick" else [seed + k for k in range(8)]
+    secs = "1.0" if tier == "quick" else "4.0"
+    ops = collections.Counter()
+    problems = []
+    for sd in seeds:
+        for gmp in (["8"] if tier == "quick" else ["2", "8", "16"]):
+            env2 = dict(env, GORACE="log_path=%s halt_on_error=0" % os.path.join(rdir, "r"), GOMAXPROCS=gmp)
+            rc, out = sh([os.path.join(BUILD, "vr"), str(sd), secs], cwd=ROOT, timeout=900, env=env2)
+            for line in out.splitlines():
+                try:
+                    r = json.loads(line)
+                except ValueError:
+                    continue
+                ops[r["workload"]] += r.get("ops", 0)
+                if r.get("panic"):
+                    problems.append(dict(workload=r["workload"], seed=sd, gomaxprocs=gmp, panic=r["panic"]))
+                if r.get("stuck"):
+                    problems.append(dict(workload=r["workload"], seed=sd, gomaxprocs=gmp, stuck=r["stuck"]))
+            if rc != 0 and not problems:
+                problems.append(dict(seed=sd, gomaxprocs=gmp, crashed=out[-1500:]))
+    races = []
+    for f in sorted(glob.glob(os.path.join(rdir, "r.*"))):
+        txt = open(f, errors="replace").read()
+        for rep in txt.split("=================="):
+            if "DATA RACE" in rep:
+                tops = re.findall(r"^(?:Write|Read|Previous write|Previous read)[^\n]*\n\s+(\S+)\(\)\n\s+(\S+:\d+)", rep, re.M)
+                sig = " <-> ".join(sorted("%s %s" % (a.split("/")[-1], b.split("/repo/")[-1]) for a, b in tops))
+                if sig not in [r["signature"] for r in races]:
+                    races.append(dict(signature=sig, report=rep.strip()[:2500]))
+    info["coverage"].update(race_workload_ops=dict(ops), race_reports=len(races), race_seeds=seeds, race_seconds_per_workload=float(secs))
+    if races or problems:
+        what = ("the race detector reports %d distinct data race(s) under the contended workloads, e.g. %s" % (len(races), races[0]["signature"])) if races else \
+               ("a contended workload %s" % ("panicked: " + problems[0].get("panic", "") if problems[0].get("panic") else "wedged: " + str(problems[0].get("stuck") or problems[0].get("crashed"))))
+        info.update(kind="tie", what=what, detail=json.dumps(dict(races=races[:3], problems=problems[:3]))[:6000],
+                    failing_input=dict(workloads="harness/cmd/vr (go build -race)", seeds=seeds, races=races[:5], problems=problems[:5]))
+        return False, info
+    return True, info
+
 PROPS = {
     "C08": dict(
         level_text="PARTIAL proof. Proved in Coq for every state and symbol: one activation notifies the init flow, then (only if it did not fail) the load hooks once and the begin flow; symmetrically term/unload/final; after the first failing flow nothing more is notified and the error an Insert returns is a flow's error. Not proved: dependencies-first ordering (correctness of the Kahn-style traversal). It is evaluated, with the wrapping and abort clauses, by a Go oracle on the notifications of every operation of every generated history (acyclic universes, lifecycle ports attached to responder nodes that succeed or fail, all insertion/removal orders the generator draws), and the per-symbol notification sequences and results are compared with the model up to the first aborted operation.",
@@ -98,6 +217,14 @@ PROPS = {
         quick_n=60, thorough_n=1200, shard=100, mismatch_is_failure=True,
         assumptions=["an endpoint answers its requests in order, exactly once (C01, C02)", "one process per workflow run (a.frames is keyed by process)"],
         trusted_base=["pkg/runtime/agent.go (hooks), pkg/runtime/breakpoint.go transcribed by hand into theories/Runtime/Agent.v, Breakpoint.v", COMMON_MODEL],
+    ),
+    "C20": dict(
+        level_text="The locking protocol of the shared objects, extracted from /repo's current source on every run by a translator (go/parser + go/types): every root of execution (exported API, methods reached through interfaces, goroutine bodies, deferred closures) of the packages process, packet, port, types, encoding, store, symbol, runtime as control-flow paths of lock operations and accesses to the mutable fields of mutex-owning structs, callees inlined. Coq checks on that skeleton by computation: every such access holds the field's guard on the same object (exclusively for writes), no path re-takes, leaks or wrongly releases a lock, and the lock order between lock classes is acyclic; and a theorem proved once for any skeleton: in the interleaving semantics of any number of threads each running a checked path, no reachable state has two threads at conflicting accesses of one field, and no thread waits for a lock it holds. PARTIAL: what the lock protocol cannot see - data handed out of critical sections (slice and map contents, public fields of plain structs), channels, atomics, the Go memory model itself - is searched, not proved: contended workloads on one shared instance of each object (process-local store, processes, ports, writer/readers/tracer, node workflows with and without the agent and a frame watcher, store, symbol table, value maps and codec registries) run under the Go race detector with panic recovery and a watchdog.",
+        level_note="Partial as stated. Trusted: the translator (what it recognises as lock operation, field access, synchronous callback vs. deferred closure, constructor context; `base` expression text as object identity; loops as zero-or-one iteration; 3 documented exemptions; the allowed self-edge of Process) - a translator bug can hide a violation; Coq kernel + vm_compute; Go's race detector and the schedules it happens to see.",
+        technique="Go-AST translator (regenerated every run) -> Coq lockset / lock-order obligations by vm_compute + Coq soundness theorem for the interleaving semantics (lock exclusion invariant) + race-detector workloads as search",
+        quick_n=0, thorough_n=0, shard=1, harness=False, pre_build=c20_pre_build, pre=c20_pre, diagnose=c20_diagnose, standalone_props=True,
+        assumptions=["equal base expression text = same object (aliases under other names are not related)", "critical sections are what the translator sees between Lock and Unlock of the structs' own mutexes", "hooks, listeners and callbacks supplied by users are outside the protocol"],
+        trusted_base=["/verif/translator (go/ast, go/types) and its exemption list", "pkg/* source as parsed from /repo on this run", COMMON_MODEL, "Go race detector (runtime/race) for the search"],
     ),
     "C01": dict(
         level_text="Coq theorems for every history over the property's alphabet (any number of readers, any order): the serials of the responses emitted so far followed by the serials of the writes still pending are exactly 0..accepted-1 - each accepted write is answered at most once, in write order, none lost; a write that reports zero accepting readers gets no response; responses are joins (errors dominate, empty answers vanish, payloads in link order); positional lookups stay in range. Tied to pkg/packet by driving one real Writer and real Readers through generated histories (the goroutines Reader.Close spawns are parked in a build-tagged gate and delivered as explicit steps) and comparing every return value, the response stream and the requests seen by each reader with the model, plus an identity-based request/response ledger in Go as failing-input oracle for attribution.",
